@@ -40,12 +40,28 @@ type parser struct {
 	b     []byte
 	i     int
 	depth int
+	max   int
 }
 
 var ErrSyntax = errors.New("jsonref: syntax error")
 
+// ParseMaxDepth is Parse with another nesting limit (RFC 8259 itself has none).
+func ParseMaxDepth(b []byte, max int) (*Value, error) {
+	p := &parser{b: b, max: max}
+	p.ws()
+	v, err := p.value()
+	if err != nil {
+		return nil, err
+	}
+	p.ws()
+	if p.i != len(p.b) {
+		return nil, ErrSyntax
+	}
+	return v, nil
+}
+
 func Parse(b []byte) (*Value, error) {
-	p := &parser{b: b}
+	p := &parser{b: b, max: MaxDepth}
 	p.ws()
 	v, err := p.value()
 	if err != nil {
@@ -102,7 +118,7 @@ func (p *parser) value1() (*Value, error) {
 	switch c := p.b[p.i]; {
 	case c == '{':
 		p.depth++
-		if p.depth > MaxDepth {
+		if p.depth > p.max {
 			return nil, ErrSyntax
 		}
 		p.i++
@@ -157,7 +173,7 @@ func (p *parser) value1() (*Value, error) {
 		}
 	case c == '[':
 		p.depth++
-		if p.depth > MaxDepth {
+		if p.depth > p.max {
 			return nil, ErrSyntax
 		}
 		p.i++
